@@ -1,6 +1,6 @@
 (** C09 — Failed receives discard application state but keep receipt and acknowledgement. *)
 From IBC Require Import Core.ChainExamples.
-From IBC Require Import Lib.Bytes Core.Height Core.Chain Core.ChainFacts Core.ChainInv Core.ChainThms.
+From IBC Require Import Lib.Bytes Core.Height Core.Chain Core.ChainFacts Core.ChainInv Core.ChainThms Core.ChainC09.
 Local Open Scope N_scope.
 
 (** The application's receive callback is an arbitrary function of the application state ([e_recv1]): it
@@ -19,6 +19,20 @@ Theorem C09_recv_app_state {A} (e : Env A) c p ph r c' :
   end.
 Proof. exact (recv1_app_state e c p ph r c'). Qed.
 Print Assumptions C09_recv_app_state.
+
+(** "The outcome does not depend on what the application wrote before failing": replace the application by any other
+    one that fails with the same error acknowledgement after reaching any other state — the whole chain state after
+    the message is the same, and its application state is the one from before the message. *)
+Theorem C09_outcome_independent_of_partial_writes {A} (e : Env A) f c p ph r a1 a2 bz :
+  e_recv1 e (app c) p r = (a1, Some (false, bz)) ->
+  f (app c) p r = (a2, Some (false, bz)) ->
+  msg_recv1 (with_recv1 e f) c p ph r = msg_recv1 e c p ph r /\
+  (forall c', msg_recv1 e c p ph r = (c', Ok) -> app c' = app c).
+Proof. exact (recv1_failure_independent e f c p ph r a1 a2 bz). Qed.
+Print Assumptions C09_outcome_independent_of_partial_writes.
+
+(** the same for IBC v2 packets is [C10_all_or_nothing]: with any failing payload the application state of before
+    the message is kept whatever the payloads' callbacks reached. *)
 
 (** non-vacuity: a concrete state satisfies the invariant and a concrete 13-step history (duplicates, a failing
     application, an ORDERED timeout, multi-payload v2 receives) produces exactly the expected callbacks *)
